@@ -27,6 +27,22 @@ CLAIMS = {
                 "allow/deny sets are never emptied while validators may read them.",
         "not_decided": "each validator's numeric bound at the limit; list contents as a function of the queries; refresh/validation interleavings beyond the no-empty-window rule.",
     },
+    "C13": {
+        "technique": "CFG post-dominance of the EOSE sentinel (exceptional edges, cancellation excluded), must-pass-through on guard edges "
+                     "(limit, replacement), handler/raise tables, sender dequeue-to-send path rule, typestate liveness rule",
+        "text": TXT + "Decides: sentinel on every non-cancellation exit of each run_query and at most once; subscribe answers every REQ "
+                "(start or sentinel) and raises only NOTICE-mapped types; limit test before insertion on the same dict; same-id replacement "
+                "before any answer; cancel-before-delete; finally drops registry and sender; sender never drops a sentinel and maps None->EOSE.",
+        "not_decided": "interleavings of a running query task with REQ/CLOSE beyond the liveness rule; bounded-exhaustive command sequences.",
+    },
+    "C06": {
+        "technique": "path counting over the acyclic CFG slice of the EVENT branch (exactly one OK frame), definite-assignment, value "
+                     "provenance of the acknowledgement status, control-dependence of the broadcast, derived writer-side obligations",
+        "text": TXT + "Decides: exactly one OK per EVENT on every path incl. the rate-limited branch; OK operands definitely assigned; OK=true "
+                "only from the INSERT's rowcount inside the transaction and returned after commit; broadcast after commit iff new; LMDB "
+                "fixed-width conversions guarded before the acknowledged enqueue.",
+        "not_decided": "'retrievable thereafter' end-to-end; absence of value-dependent faults in pre_save/process_tags for all well-formed events.",
+    },
 }
 
 PENDING = "checker for this property is not implemented yet in this revision; nothing is claimed"
